@@ -4,6 +4,7 @@ Driver for stream `vm` (C12): the accounting model executes the instruction stre
   load                                       -> NONE 0 0 1        (entry script loaded)
   i <NAME> <args…> [|T <k> <c>] [!]          -> <NONE|HALT> <refs> <reach> <depth> | FAULT
   e <obs…>                                   -> <obs…>            (echo: the case left the modelled set)
+  chk <hex>                                  -> ok | bad          (Model/ScriptCheck.isScriptCorrect = scparser.IsScriptCorrect)
 `refs` is the model of the implementation's counter (as vm.go updates it), `reach` the number of
 items found by walking the model state, `depth` the invocation stack depth. The arguments of an
 instruction are what the harness read off the real state before the step (counts, positions);
@@ -11,7 +12,9 @@ instruction are what the harness read off the real state before the step (counts
 2048 is predicted by the model itself.
 -/
 import NeoModel.Base.Proto
+import NeoModel.Base.Hex
 import NeoModel.Model.VmAcct
+import NeoModel.Model.ScriptCheck
 open NeoModel NeoModel.VmAcct
 
 structure DState where
@@ -108,6 +111,10 @@ def stepD (d : DState) (ts : List String) : DState × String :=
   | "case" :: _ => ({}, " ".intercalate ts)
   | ["load"] => (d, obs d.s)
   | "e" :: rest => (d, " ".intercalate rest)
+  | ["chk", h] =>
+    match Hex.decode h with
+    | some b => (d, if ScriptCheck.isScriptCorrect b then "ok" else "bad")
+    | none => (d, "bad-hex")
   | "i" :: name :: rest =>
     if d.dead then (d, "FAULT") else
     let (args, unw, ext) := splitTail rest
